@@ -12,7 +12,7 @@
    with [lower_bytes (q_name q) = pack n] (n is the lower-cased query name), no OPT or EDNS
    version 0.  Backends: CDB and RocksDB with v1 keys (b <> RDB2). *)
 From DnsV Require Import Base.Bytes Model.Store Model.LookupV1 Model.Serve Spec.Answer Spec.Rows.
-From DnsV Require Import Proofs.Answer Proofs.Compile Proofs.ZoneCut Proofs.Refused Proofs.NxDomain Proofs.SoaAuth Proofs.AnswerItems Proofs.Referral.
+From DnsV Require Import Proofs.Answer Proofs.Compile Proofs.ZoneCut Proofs.Refused Proofs.NxDomain Proofs.SoaAuth Proofs.AnswerItems Proofs.Referral Proofs.Glue.
 From Coq Require Import Permutation.
 Open Scope N_scope.
 
@@ -39,6 +39,22 @@ Theorem C01_referral_at_or_below_delegation : forall b recs L, wf_recs recs -> F
   Permutation (filter is_ns (ordered_at recs L z)) (of_type 2 (own_records L recs z)).
 Proof. exact referral_v1. Qed.
 Print Assumptions C01_referral_at_or_below_delegation.
+
+(* the additional section of that referral (glue), as a function of the declared records: for every
+   NS record of the authority section in order, and each address family for which the message has no
+   record of that target yet, the non-wildcard address records stored under the lower-cased target
+   (client's location first, then untagged: [at_keys]) are the candidates and one of positive weight is
+   served ([glue_step]); nothing else is added *)
+Theorem C01_referral_glue : forall b recs L, wf_recs recs -> Forall wf_ns_rdata recs ->
+  length L = 2%nat -> b <> RDB2 -> wf_view L recs = true -> forall q n z ecs max x,
+  wf_name n -> nlen (pack n) <= 255 -> lower_bytes (q_name q) = pack n ->
+  (q_edns q = None \/ q_edns q = Some 0) -> q_type q <> 43 ->
+  zone_cut L recs n = Some z -> authoritative L recs z = false ->
+  serve b (store_v1 recs) q (LocOk L) ecs max = OReply x ->
+  rs_ex x = m_ex (fold_left (glue_step recs L (q_class q)) (map r_rdata (ns_of_cut recs L z))
+                            (mkMsg [] (map (ns_item (pack z) (q_class q)) (ns_of_cut recs L z)) [])).
+Proof. exact referral_glue_v1. Qed.
+Print Assumptions C01_referral_glue.
 
 (* inside an authoritative zone: NXDOMAIN exactly when neither the name nor a covering wildcard
    (nearest ancestor inside the zone, across wild-safe labels only) has a visible record *)
@@ -130,10 +146,11 @@ Print Assumptions C01_zone_cut_sound.
 (* C01_served_is_declared_partial.  Proved above for the v1 reader (CDB, RocksDB v1 keys): the
    REFUSED clause, the NXDOMAIN clause, AA and SOA-on-empty-answer, the exact contents of the answer
    section (own records, else covering wildcard; type or CNAME; TTL, rdata, candidates and number of
-   addresses), the referral clause (AA clear, NS of the cut in the authority section), the zone-cut
-   walk, row and key round trips.  NOT proved: the additional section (glue of a referral; soundness
-   for authoritative answers), the authority section of a non-empty answer, DS at or below a
-   delegation (unconstrained by the statement); and nothing of this for the closest-key (v2) reader, which needs C02's
+   addresses), the referral clause (AA clear, NS of the cut in the authority section, glue), the
+   zone-cut walk, row and key round trips.  NOT proved: the additional section of authoritative
+   answers (only soundness is demanded), the authority section of a non-empty answer, DS at or below
+   a delegation (unconstrained by the statement), the link between [at_keys] of a target and the
+   spec's own_records of that name; and nothing of this for the closest-key (v2) reader, which needs C02's
    simulation.  The differential run checks all of these clauses on
    every generated file, query, client and backend (Run/Core.v: spec_c01_obs). *)
 
